@@ -77,9 +77,12 @@ class C01(Config):
         "histories with forks are not bridged (they are evaluated on every run)",
         "scan_idempotent is proved for the observable ledger (scanned set, tip, notes and spent status of scanned "
         "outputs, balances), not for the nullifier map (a re-scan may add entries)",
-        "the model names a note by its nullifier, the code by (txid, output index): valid_universe requires an output "
-        "nullifier to name one output, so a wallet-owned Sapling output re-mined at another tree position (its "
-        "nullifier changes) is outside the theorems and is not generated",
+        "Sapling outputs re-mined at another commitment-tree position after a reorg (same txid and output index, new "
+        "nullifier): the MODEL covers them (note rows are keyed by (pool, txid, output index), the upsert replaces the "
+        "nullifier), the generator produces and later spends them, run_case and prop_case (ground truth + linear-scan "
+        "comparison) check them; the THEOREMS exclude them through the guard valid_universe.vu_tx ('a txid names one "
+        "transaction including the nullifiers of its outputs'), under which upsert-by-identity equals upsert-by-nullifier "
+        "(Proofs.put_note_keyed)",
         "commitment-tree failures of scan_cached_blocks (Err ETree, shardtree defect C06-F2) and the height reached by "
         "truncate_to_height are inputs of the model (C06); transparent coins are not modelled",
     ]
